@@ -116,6 +116,32 @@ def gen_verdict_decls(rng, tier):
     b.add("String", [block("sanitize", [[tid("trim")], [tid("trim")]])], "validate:duplicate_sanitizer")
     b.add("String", [block("validate", [[tid("not_empty")], [tid("not_empty")]])], "validate:duplicate_validator")
     b.add("f64", [block("validate", [[tid("finite")], [tid("finite")]])], "validate:duplicate_validator")
+    # ---- hygiene: items of the user's module that carry names the expansion also uses
+    HYG_OK = [("result_alias", "    pub type Result<T> = ::core::result::Result<T, ()>;"),
+              ("error_struct", "    pub struct Error;"),
+              ("string_vec_box", "    pub struct String; pub struct Vec; pub struct Box;"),
+              ("std_trait_names", "    pub trait From {} pub trait Display {} pub trait AsRef {} pub trait Deref {} pub trait Borrow {}"),
+              ("regex_names", "    pub struct Regex; pub struct LazyLock;"),
+              ("inner_value_types", "    pub struct Value; pub struct Inner; pub struct Raw; pub struct Validator; pub struct Sanitizer;"),
+              ("parse_error_name", "    pub struct ParseError; pub struct TryFromError;")]
+    HYG_KNOWN = [("option_enum", "    pub enum Option { Some, None }"),
+                 ("ok_err_structs", "    pub struct Ok; pub struct Err;"),
+                 ("core_std_modules", "    pub mod core {} pub mod std {}"),
+                 ("debug_clone_into_traits", "    pub trait Debug {} pub trait Clone {} pub trait Into {} pub trait Default {}")]
+    hyg_shapes = [("i32", [block("validate", [[tid("greater"), EQ, li(0)]]), [tid("default"), EQ, li(5)],
+                           D(["Debug", "Clone", "PartialEq", "TryFrom", "Into", "FromStr", "Display", "Default", "AsRef", "Deref", "Borrow", "Serialize", "Deserialize"])]),
+                  ("f64", [block("validate", [[tid("finite")], [tid("greater"), EQ, lf("0.0")]]),
+                           D(["Debug", "Clone", "PartialEq", "Eq", "PartialOrd", "Ord", "TryFrom", "FromStr", "Display", "Serialize", "Deserialize"])]),
+                  ("String", [block("sanitize", [[tid("trim")], [tid("lowercase")]]), block("validate", [[tid("not_empty")], [tid("len_char_max"), EQ, li(5)], [tid("regex"), EQ, tstr(REGEX_LITS[0])]]),
+                              D(["Debug", "Clone", "PartialEq", "TryFrom", "FromStr", "Display", "Serialize", "Deserialize"])])]
+    for label, items in HYG_OK + HYG_KNOWN:
+        for inner, blocks in hyg_shapes:
+            if inner == "String" and label == "string_vec_box":
+                continue            # the inner type itself would be the user's struct
+            d = b.add(inner, list(blocks), "ok", extra_items=items)
+            d.tags.add("hygiene")
+            d.hygiene = label
+            d.hygiene_known = (label, items.strip()) in [(l_, i_.strip()) for l_, i_ in HYG_KNOWN]
     # duplicates that are not neighbours
     S = lambda *names: block("sanitize", [[tid(n_)] if isinstance(n_, str) else n_ for n_ in names])
     V = lambda *items: block("validate", [[tid(n_)] if isinstance(n_, str) else n_ for n_ in items])
